@@ -523,7 +523,33 @@ func (g *gen) funcLit(sig *Sig, sc *sscope, name string, thisTy *Ty) *FuncLit {
 	f := &FuncLit{ID: g.nid(), Name: name}
 	fs := &sscope{def: map[string]bool{}, parent: sc, fn: true, sig: sig, thisTy: thisTy}
 	for i, p := range sig.Params {
-		f.Params = append(f.Params, Param{p, sig.Defs[i]})
+		pa := Param{Name: p, Def: sig.Defs[i]}
+		if pa.Def != nil && g.gamma[p] != nil && g.gamma[p].K == kNum && g.chance(1, 3) {
+			// a default that is an expression over a numeric name of the
+			// declaration scope (not one of the parameters: whether a default sees
+			// earlier parameters is not in the statement)
+			var cs []string
+			for _, c := range g.positions(sc, func(t *Ty) bool { return t.K == kNum }, true, false) {
+				if v, ok := g.candExpr(c).(*Var); ok {
+					own := false
+					for _, q := range sig.Params {
+						own = own || q == v.Name
+					}
+					if !own {
+						cs = append(cs, v.Name)
+					}
+				}
+			}
+			if len(cs) > 0 {
+				n := cs[g.r.Intn(len(cs))]
+				if g.chance(1, 2) {
+					pa.DefE = &Var{n}
+				} else {
+					pa.DefE = &Bin{"+", &Var{n}, numLit(float64(g.r.Range(1, 3)))}
+				}
+			}
+		}
+		f.Params = append(f.Params, pa)
 		fs.def[p] = true
 	}
 	saveExcl := g.excl
@@ -955,6 +981,11 @@ func (g *gen) blockStmt(sc *sscope, depth int) []Stmt {
 	case 6:
 		s := &Try{ID: g.nid(), FinID: g.nid()}
 		s.Body = g.stmts(&sscope{def: map[string]bool{}, parent: sc}, n, depth+1)
+		s.Except = g.chance(1, 2)
+		if g.chance(1, 2) {
+			s.HasOth, s.OthID = true, g.nid()
+			s.Otherwise = g.stmts(&sscope{def: map[string]bool{}, parent: sc}, g.r.Range(1, 2), depth+1)
+		}
 		s.Finally = g.stmtsNoReturn(&sscope{def: map[string]bool{}, parent: sc}, g.r.Range(1, 2), depth+1)
 		return []Stmt{s}
 	default:
@@ -1303,7 +1334,7 @@ func (g *gen) initLit(t *Tmpl, sc *sscope) *FuncLit {
 	f := &FuncLit{ID: g.nid()}
 	fs := &sscope{def: map[string]bool{}, parent: sc, fn: true, sig: &Sig{Level: 99}, thisTy: t.This}
 	for i, p := range sig.Params {
-		f.Params = append(f.Params, Param{p, sig.Defs[i]})
+		f.Params = append(f.Params, Param{Name: p, Def: sig.Defs[i]})
 		fs.def[p] = true
 	}
 	g.fnDepth++
